@@ -107,13 +107,16 @@ func (df *DataFile) WriteHintRecord(key []byte, hintPos []byte, pos *DataPos) er
 	return err
 }
 
-func (df *DataFile) WriteMergeFinRecord(id FileID) error {
+// WriteMergeFinRecord 写入 merge 完成标识: 未参与 merge 的最近文件 id 与重写得到的文件个数
+// 与其他记录一样按 chunk 格式写入, 读取时校验和可识别未写完的标识
+func (df *DataFile) WriteMergeFinRecord(id FileID, mergedFiles uint32) error {
 	if df.closed {
 		return ErrClosed
 	}
-	data := make([]byte, 4)
-	binary.LittleEndian.PutUint32(data, id)
-	_, err := df.ReadWriter.Write(data)
+	data := bytebufferpool.Get()
+	data.B = binary.LittleEndian.AppendUint32(data.B, id)
+	data.B = binary.LittleEndian.AppendUint32(data.B, mergedFiles)
+	_, err := df.writeSingle(data)
 	return err
 }
 
@@ -277,18 +280,18 @@ func (df *DataFile) ReadRecordValue(logRecordPos *DataPos) ([]byte, error) {
 	return value, nil
 }
 
-func (df *DataFile) ReadMergeFinRecord() FileID {
+// ReadMergeFinRecord 读取 merge 完成标识, 标识不存在或不完整时返回 0
+func (df *DataFile) ReadMergeFinRecord() (FileID, uint32) {
 	if df.closed {
-		return 0
+		return 0, 0
 	}
 	buf := bytebufferpool.Get()
 	defer bytebufferpool.Put(buf)
 	err := df.readToBuf(0, 0, buf)
-	if err != nil {
-		return 0
+	if err != nil || len(buf.B) < 8 {
+		return 0, 0
 	}
-	value := binary.LittleEndian.Uint32(buf.Bytes())
-	return value
+	return binary.LittleEndian.Uint32(buf.B[:4]), binary.LittleEndian.Uint32(buf.B[4:8])
 }
 
 func (df *DataFile) readToBuf(blockID uint32, offset uint32, buf *bytebufferpool.ByteBuffer) error {
